@@ -66,6 +66,8 @@ type FuncContract struct {
 	RecvName  string
 	ParamNames  []string // positional renames (optional)
 	ResultNames []string
+	ParamTypes  []string // as written in the func directive ("" when not given)
+	ResultTypes []string
 	Requires  []*Clause
 	Ensures   []*Clause
 	Lets      []LetDef
@@ -413,9 +415,11 @@ func (cs *Contracts) loadFile(path string) error {
 			}
 			for _, p := range parseParams(m[4]) {
 				fc.ParamNames = append(fc.ParamNames, p.Name)
+				fc.ParamTypes = append(fc.ParamTypes, p.Type)
 			}
 			for _, p := range parseParams(m[5]) {
 				fc.ResultNames = append(fc.ResultNames, p.Name)
+				fc.ResultTypes = append(fc.ResultTypes, p.Type)
 			}
 			if _, dup := cs.Funcs[fc.Key]; dup {
 				return fail("duplicate contract for %s", fc.Key)
